@@ -23,6 +23,7 @@ TITLE = 'Text <-> tree is lossless under every formatting option'
 
 INDENTS = [None, -1, 0, 1, 3]
 OPTIONS = [(i, c) for i in INDENTS for c in (False, True)]
+OPTIONS_REDUCED = [(None, False), (-1, True), (0, False), (3, True)]
 METAS = [
     {},
     {'id': '1'},
@@ -42,6 +43,12 @@ ASSUMPTIONS = [
 ]
 
 T.ALPHABETS['c01wide'] = dict(T.ALPHABETS['wide'])
+T.ALPHABETS['c01wide']['atoms'] = T.ALPHABETS['wide']['atoms'] + ['""', '"\\"q\\\\"']
+T.ALPHABETS['c01wide']['concepts'] = T.ALPHABETS['wide']['concepts'] + ['""~1']
+
+# comment lines for the fixed-point clause (multi-key lines, empty values, odd spacing)
+COMMENT_SEGMENTS = ['::id 1', '::snt x y', '::k', ' ::z  w ', 'free text', ':: a', '::a:b c']
+GRAPH_TEXTS = ['(a / b)', '(a / b :r (c / d))\n# ::tail 1\n(e / f)']
 
 
 def shards(tier, seed):
@@ -49,8 +56,8 @@ def shards(tier, seed):
     q = tier == 'quick'
     out += T.shard_list(3, 2, 3, 'c01wide', empty_nodes=True, extra={'sub': 'trees', 'bounds': 'TREE(3,2,3) wide, empty nodes x 10 options'})
     if q:
-        out += T.shard_list(3, 3, 3, 'mid', empty_nodes=True, extra={'sub': 'trees', 'bounds': 'TREE(3,3,3) mid, empty nodes x 10 options'})
-        out += T.shard_list(4, 4, 4, 'narrow', extra={'sub': 'trees', 'bounds': 'TREE(4,4,4) narrow x 10 options'})
+        out += T.shard_list(3, 3, 3, 'mid', empty_nodes=True, extra={'sub': 'trees', 'quick': 1, 'bounds': 'TREE(3,3,3) mid, empty nodes x 4 option pairs'})
+        out += T.shard_list(4, 4, 4, 'narrow', extra={'sub': 'trees', 'quick': 1, 'bounds': 'TREE(4,4,4) narrow x 4 option pairs'})
     else:
         out += T.shard_list(3, 4, 3, 'mid', empty_nodes=True, pin=3, extra={'sub': 'trees', 'bounds': 'TREE(3,4,3) mid, empty nodes x 10 options'})
         out += T.shard_list(4, 5, 4, 'narrow', pin=3, extra={'sub': 'trees', 'bounds': 'TREE(4,5,4) narrow x 10 options'})
@@ -62,6 +69,7 @@ def shards(tier, seed):
                 continue   # a graph starts with blanks, a comment or '('
             out.append({'sub': 'fixed', 'kind': 's', 'prefix': a + c, 'lens': list(range(1, full - 1)),
                         'bounds': f'accepted strings of length <= {full} over the 16-char C07 alphabet x 10 options'})
+    out.append({'sub': 'fixed', 'kind': 'c', 'n': 3 if q else 4, 'bounds': 'comment lines built from <= 3/4 of 7 segments (multi-key lines, empty values), 1-2 comment lines, before 2 graph texts x 10 options'})
     m = 7 if q else 8
     for f in itertools.product(C07.TOK, repeat=3):
         if f[0] not in ('(', '#c\n'):
@@ -74,12 +82,26 @@ def shards(tier, seed):
 def cases(shard):
     sub = shard['sub']
     if sub == 'trees':
+        red = shard['alpha'] != 'c01wide' and shard.get('N', 0) >= 3 and shard['B'] <= 4 and shard['D'] <= 4 and shard.get('quick')
         for k, t in enumerate(T.shard_trees(shard)):
-            yield {'t': t, 'm': k % len(METAS)}
+            if red:
+                yield {'t': t, 'm': k % len(METAS), 'o': 1}
+            else:
+                yield {'t': t, 'm': k % len(METAS)}
     elif sub == 'meta':
         for t in T.shard_trees(shard):
             for m in range(len(METAS)):
                 yield {'t': t, 'm': m}
+    elif shard['kind'] == 'c':
+        lines = []
+        for n in range(1, shard['n'] + 1):
+            for segs in itertools.product(COMMENT_SEGMENTS, repeat=n):
+                lines.append('# ' + ' '.join(segs))
+        for gt in GRAPH_TEXTS:
+            for ln in lines:
+                yield {'s': ln + '\n' + gt}
+            for l1, l2 in itertools.product(lines[:60], repeat=2):
+                yield {'s': l1 + '\n' + l2 + '\n' + gt}
     elif shard['kind'] == 's':
         for n in shard['lens']:
             for tt in itertools.product(C07.SIGMA, repeat=n):
@@ -118,7 +140,7 @@ def check(case, ctx):
         t = T.totuple(case['t'])
         md = METAS[case['m']]
         base = None
-        for indent, compact in OPTIONS:
+        for indent, compact in (OPTIONS_REDUCED if case.get('o') else OPTIONS):
             try:
                 s = penman.format(Tree(t, metadata=dict(md)), indent=indent, compact=compact)
                 t2 = penman.parse(s)
